@@ -194,12 +194,16 @@ class Run:
                 for p in g["providers"]:
                     if p == "sm":
                         setattr(cls, nm, v)
-                    elif p in self.objs:
+                    elif self.objs.get(p) is not None:
                         setattr(self.objs[p], nm, v)
         rec.emit("step", op="construct", phase="begin", val=dict(rec.val), stored=stored, start=step.get("start"), reuse=reuse)
         self.user_model = model
         try:
-            if spec.get("model_shape") == "default":
+            if spec.get("mixin"):
+                model = self.objs["model"] = getattr(self.mod, f"Mod_{spec['uid']}")()
+                self.user_model = model
+                self.sm = model.statemachine
+            elif spec.get("model_shape") == "default":
                 self.sm = cls(**kw)
                 self.user_model = None
             else:
@@ -231,8 +235,18 @@ class Run:
                 if str(e) == event:
                     return e(*args, **kwargs)
             return sm.send(event, *args, **kwargs)
+        if style == "mixin":
+            tgt = self.objs["model"]
+            if event in [str(e) for e in sm.events] and hasattr(tgt, event):
+                return getattr(tgt, event)(*args, **kwargs)
+            return sm.send(event, *args, **kwargs)
         if style == "bound":
-            tgt = self.bound_target
+            tgt = getattr(self, "bound_target", None)
+            if tgt is None:
+                class _Target:
+                    pass
+                tgt = self.bound_target = _Target()
+                sm.bind_events_to(tgt)
             if hasattr(tgt, event):
                 return getattr(tgt, event)(*args, **kwargs)
             return sm.send(event, *args, **kwargs)
@@ -296,6 +310,10 @@ class Run:
         except Exception as err:  # noqa: BLE001
             info["active"] = None
             info["active_err"] = type(err).__name__
+        try:
+            info["events"] = [str(e) for e in sm.events]
+        except Exception as err:  # noqa: BLE001
+            info["events_err"] = type(err).__name__
         try:
             info["csv"] = repr(sm.current_state_value)
             info["cs_value"] = repr(sm.current_state.value) if info["cur"] is not None else None
